@@ -41,6 +41,7 @@ WITNESS = [
     (r"search_hash::", "append:engine_core/src/engine/search.rs", "inkayaku_engine_core", "c06_search_threading.rs", "verif_witness_c06"),
     (r"hashes::", "board", "inkayaku_board", "c06_hashes.rs", "witness_c06"),
     (r"eval::", "append:engine_core/src/engine/heuristic/simple.rs", "inkayaku_engine_core", "c11_symmetry.rs", "verif_witness_c11"),
+    (r"search_horizon::", "engine_core", "inkayaku_engine_core", "c11_horizon.rs", "witness_c11_horizon"),
     (r"heuristic::(SearchFragE::|calculate_heuristic_factor)", "append:engine_core/src/engine/search.rs", "inkayaku_engine_core", "c11_search_view.rs", "verif_witness_c11_search"),
     (r"heuristic::Heuristic::(score_from_value|is_checkmate|win_score|loss_score|draw_score)", "append:engine_core/src/engine/heuristic/simple.rs", "inkayaku_engine_core", "c11_symmetry.rs", "verif_witness_c11_mate"),
     (r"search_rep::", "engine_core", "inkayaku_engine_core", "c10_repetition.rs", "witness_c10"),
